@@ -71,20 +71,24 @@ class Printer:
     def emit(self, text, ind, tag=None, kind="complete"):
         """kind: 'header' (an indented block must follow), 'complete' (a complete statement), 'arm' (a match/switch arm
         header, not judged by the prefix oracle)."""
-        if self.flip("blank", 0.08):
+        after_header = bool(self.line_kinds) and self.line_kinds[-1] in ("header", "arm")
+        if "no_blank_after_header" in self.freedoms and text.split(" ")[0] in ("else", "catch", "finally"):
+            after_header = True      # (formatter input guard) no trivia between a block and its else / catch / finally
+        if self.flip("blank", 0.08) and not (after_header and "no_blank_after_header" in self.freedoms):
             self.lines.append("")
             self.line_kinds.append("trivia")
-        if self.flip("comment_line", 0.06):
+        quiet = after_header and "no_blank_after_header" in self.freedoms
+        if not quiet and self.flip("comment_line", 0.06):
             self.lines.append("  " * ind + "# note %d" % len(self.lines))
             self.line_kinds.append("trivia")
-        if self.flip("comment_multi", 0.03):
+        if not quiet and self.flip("comment_multi", 0.03):
             self.lines.append("  " * ind + "#- note")
             self.lines.append("  " * ind + "   %d -#" % len(self.lines))
             self.line_kinds += ["trivia", "trivia"]
         self.breaks_in_stmt = 0
         text = text.replace("\x00", "\n" + "  " * (ind + 1)).replace("\x01", "\n" + "  " * ind)
         line = "  " * ind + text
-        if self.flip("comment_eol", 0.06):
+        if self.flip("comment_eol", 0.06) and not (kind in ("header", "arm") and "no_blank_after_header" in self.freedoms):
             line += "  # c"
         if self.flip("trailing_ws", 0.06):
             line += "  "
